@@ -41,6 +41,8 @@ ASSUMPTIONS = [
     "inputs move 1e-13) are compiled but their values are not compared; they are counted",
     "wrappers whose children are == but differ in a nested constant's type are not generated",
 ]
+# a share of every batch runs under python -O (asserts stripped)
+BATCHES = [{"share": 0.85}, {"share": 0.15, "pyflags": ["-O"], "tier_suffix": "-O"}]
 EXPECTED_PROBES = ["copies_after_assignment", "repeated_prefix", "wrapper_reused_across_calls",
                    "wrapper_first_seen_in_copy_then_parent", "nested_wrappers",
                    "unsupported_node_faults", "int_values_compared", "float_values_compared",
@@ -101,7 +103,7 @@ class _FragGen:
         if r.random() < 0.18:
             return self.wrap(self.expr(d + 1))
         k = self.kind
-        ops = ["sum", "prod", "sub", "pow", "if", "neg"]
+        ops = ["sum", "prod", "sub", "pow", "pow", "if", "neg"]
         if k == "int":
             ops += ["fdiv", "rem", "fdiv", "rem", "min", "max", "cmp"]
         else:
@@ -509,7 +511,9 @@ def execute(scenario, open_sigs):
                         who.append(m.desc["m"])
                 if any(isinstance(k, p.Expression) and _has_wrapper(k, p) for k in kids):
                     probe("nested_wrappers")
-                m.emitted.append((text, e, opi))
+                # reference value now; the expression itself is not kept alive, so temporaries
+                # die between calls the way they do in real use (their addresses get recycled)
+                m.emitted.append((text, _expectation(Ref, e, kind, env, fenv, probes), opi))
             check_tables(m, text, opi)
             # names stay what they were, and a bare wrapper is referred to by its one name
             try:
@@ -574,6 +578,28 @@ def _ref_value(Ref, e, ctx):
     return v, ev.bad
 
 
+def _expectation(Ref, e, kind, env, fenv, probes):
+    ctx = dict(fenv)
+    v, bad = _ref_value(Ref, e, ctx)
+    ok = v is not None and not bad
+    if ok and kind == "float":
+        # conditioning filter
+        ctx2 = dict(ctx)
+        for name in env:
+            ctx2[name] = ctx[name] * (1 + 1e-13)
+        v2, bad2 = _ref_value(Ref, e, ctx2)
+        fv = float(v)
+        if v2 is None or bad2 or abs(float(v2) - fv) > 1e-9 * max(1.0, abs(fv)):
+            probes["discard_ill_conditioned"] = probes.get("discard_ill_conditioned", 0) + 1
+            return ["illcond", None, True]
+        return ["float", fv, True]
+    if ok:
+        return ["int", int(v), True]
+    key = "discard_" + (bad[0] if bad else "none").split(":")[0]
+    probes[key] = probes.get(key, 0) + 1
+    return ["discard", None, False]
+
+
 def _build_post(ms, kind, env, fenv, Ref, p, probes):
     """C functions for every mapper that emitted something, with expected values."""
     from pymbolic.mapper.c_code import CCodeMapper
@@ -617,27 +643,8 @@ def _build_post(ms, kind, env, fenv, Ref, p, probes):
             if v is None or bad:
                 runnable = False
         expects = []
-        for j, (text, e, opi) in enumerate(m.emitted):
-            v, bad = _ref_value(Ref, e, ctx)
-            ok = v is not None and not bad
-            if ok and kind == "float":
-                # conditioning filter
-                ctx2 = dict(ctx)
-                for name in env:
-                    ctx2[name] = ctx[name] * (1 + 1e-13)
-                v2, bad2 = _ref_value(Ref, e, ctx2)
-                fv = float(v)
-                if v2 is None or bad2 or abs(float(v2) - fv) > 1e-9 * max(1.0, abs(fv)):
-                    expects.append(["illcond", None, opi])
-                    probes["discard_ill_conditioned"] = probes.get("discard_ill_conditioned", 0) + 1
-                else:
-                    expects.append(["float", fv, opi])
-            elif ok:
-                expects.append(["int", int(v), opi])
-            else:
-                expects.append(["discard", None, opi])
-                probes["discard_" + (bad[0] if bad else "none").split(":")[0]] = probes.get(
-                    "discard_" + (bad[0] if bad else "none").split(":")[0], 0) + 1
+        for j, (text, (ekind, evalue, ok), opi) in enumerate(m.emitted):
+            expects.append([ekind, evalue, opi])
             fmt = "%lld" if kind == "int" else "%.17g"
             cast = "(long long)" if kind == "int" else "(double)"
             guard = "" if ok else "if (0) "
